@@ -24,6 +24,12 @@ CLAIMED = {
   text="Decides, for every receiver value at once (all list lengths, all text/extension lengths up to 65532 bytes): DET - MarshalSize/Header/Len are effect-free and Marshal never modifies its receiver copy (so MarshalSize() denotes one value MS); ALN - T.MarshalSize evaluated on an unconstrained receiver is entailed to be a multiple of 4 at every return; LEN - at every nil-error return of T.Marshal, len(result) = MS is entailed, MS coming both from the calls inside Marshal and from re-evaluating MarshalSize in the return state; HDR - the value written to the header length field satisfies 4*(Length+1) = len(result); CNT - for SR/RR/SDES/BYE the count field equals the list length (no uint8 wrap can survive the guards); ACC - Header() and Len() re-evaluated in the return state agree with the header written and with len(result); XR - wireSize reads structure only, fixed parts of every report block are multiples of 4 and element sizes are checked (three block types with 1- or 2-byte elements are open findings F14a-c); SUM/CAT - CompoundPacket.MarshalSize and rtcp.Marshal fold every member. Level other, not proof: the size domain is cut at 65532 bytes, the placement of the header bytes is a syntactic flow rule, version/PT/FMT are left to C07-SELF.",
   note="Trusted: go/ssa, checker/num, checker/effects, models of binary/copy/append/make, reflect's Type.Size/NumField/Len being structural. TransportLayerCC and RawPacket headers are caller-supplied (only LEN/ALN resp. LEN decided). Engine undecided = failure.",
   design="DESIGN.md §2 C05"),
+ "C06": dict(
+  level="other",
+  technique="static analysis: abstract interpretation (linear constraints, exact uint16 wrap) of unmarshal/Unmarshal/CompoundPacket.Unmarshal with decoder summaries, SSA shape rules for the two datagram loops, constant-propagation evaluation of Header.Unmarshal over all first octets",
+  text="Decides the structural clauses behind splitting, locality and all-or-nothing for every input: FRM - every decoder invocation in unmarshal takes the one value rawData[:n], n = 4*(Length+1) holds as an integer identity and 4 <= n <= len(rawData) at every possibly-successful return, processed = n, Length is the big-endian uint16 of bytes 2..3, both datagram loops thread rest = rest[processed:] of the same call, append that call's packet and run until the remainder is empty; VER - Header.Unmarshal returns a non-nil error for all 192 first octets whose version is not 2; LOC - all ~370 index/slice/binary accesses of the 22 decoders are within the LENGTH of the slice they were handed and nothing uses cap() or 3-index slices, so no decoder can see a neighbour frame; AON - error returns of Unmarshal carry the constant nil slice, a nil-error return has at least one packet, CompoundPacket.Unmarshal stores its receiver only after the last decode call; ERR - no callee error is dropped. It does not run Unmarshal(a||b): equality of the decoded values with Unmarshal(a), Unmarshal(b) follows from LOC + C18 determinism, not from a comparison of outputs.",
+  note="Trusted: go/ssa, checker/num with the decoder summaries of C01, checker/pe, encoding/binary model. A decoder that returns nil for a frame it should reject is C07/C04 territory.",
+  design="DESIGN.md §2 C06"),
  "C08": dict(
   level="other",
   technique="static analysis: abstract interpretation of go/ssa (linear constraints, exact fixed-width wrap-around) of every encoder with per-call-string narrowing obligations and an error-discipline rule",
